@@ -276,6 +276,10 @@ class Driver:
                                     self.variant + len(self.calls))
                 if t is not None:
                     src, kw = t
+                    # the table is built in NS1; the call goes to the
+                    # namespace of the abstract call (the event's ns)
+                    src = src.copy()
+                    src.namespace = ns
             if not tradok:
                 src = _ipath("VNoSuchClass", ns, k=1)
             return dict(InstanceName=src, **kw)
